@@ -1,10 +1,11 @@
 SPECIFICATION Spec
-CONSTANTS Callers = {c1, c2, c3}
+CONSTANTS Callers = {c1, c2}
  MaxTick = 2
  MaxRot = 1
  MaxAtt = 2
- FreshKey = TRUE
- MaxJunk = 0
+ FreshKey = FALSE
+ MaxJunk = 2
  Dev = {}
 INVARIANTS WireIdsIncrease SeqNoRules OwnResult AcceptedNeverResent SaltPersisted NoStallNotify NoStallDeliver AckedAll
+PROPERTIES AllDone LoopKeepsReading
 VIEW view
